@@ -134,7 +134,7 @@ func (f *fakeTSA) runCache(cs *cacheCase) error {
 		for _, n := range st.Seq {
 			st.Attrs = append(st.Attrs, behaviourByName("rfc3161", n).a)
 		}
-		conf := &config.TimestampConfig{Timeout: 1, URLs: urls, Memcache: []string{addr}}
+		conf := &config.TimestampConfig{Timeout: 5, URLs: urls, Memcache: []string{addr}}
 		req := &pkcs9.Request{EncryptedDigest: encdig, Hash: crypto.SHA256}
 		if cs.Poison == "garbage" && si == 0 {
 			m.mu.Lock()
